@@ -475,7 +475,10 @@ def run_property(prop, tier, seed, replay=None):
 
         # ---- workload
         workers = []
+        only_cfg = os.environ.get("VERIF_ONLY_CFG")   # developer aid: run only the jobs of one build configuration
         for ji, j in enumerate(pdef["jobs"]):
+            if only_cfg and j["cfg"] != only_cfg:
+                continue
             cases = j["cases"][tier] if isinstance(j["cases"], dict) else j["cases"]
             if cases <= 0:
                 continue
